@@ -16,6 +16,7 @@ import PyGqlModel.Props.C06_frags
 import PyGqlModel.Props.C06_cycles3
 import PyGqlModel.Props.C06_values
 import PyGqlModel.Props.C06_overlap
+import PyGqlModel.Props.C06_overlap_full
 namespace PyGql.Props.C06
 open PyGql PyGql.Validate PyGql.Validate.Spec
 
@@ -33,7 +34,16 @@ def ProvedPermDefs : List Rule := Proved ++ ProvedTyped
 def ProvedCyc : List Rule := [.noFragmentCycles]
 /-- val2, Props/C06_values.lean (the clause the code implements; V8 is the gap to 5.6.1) -/
 def ProvedValues : List Rule := [.valuesOfCorrectType]
-def ProvedAll : List Rule := ProvedPermDefs ++ ProvedOrder ++ ProvedVars ++ ProvedCyc ++ ProvedValues
+/-- val2, Props/C06_overlap_full.lean: under `OverlapHyps` -/
+def ProvedOverlap : List Rule := [.overlappingFieldsCanBeMerged]
+def ProvedAll : List Rule := ProvedPermDefs ++ ProvedOrder ++ ProvedVars ++ ProvedCyc ++ ProvedValues ++ ProvedOverlap
+
+/-- side conditions of the soundness half of 5.3.2 (val2): the routes to the parent type of a selection set agree, no
+    fragment is named "", the `field_map is fragment_field_map` shortcut is never taken, and the search does not raise
+    (the model's fuel = Python's `RecursionError`). They can fail only for documents with fragment CYCLES (reported by
+    `NoFragmentCyclesChecker`) or duplicate / unknown fragment definitions; they are not derived here from the other
+    clauses, hence the `_partial` suffix of the theorems that take them. -/
+def OverlapHyps (s : SchemaD) (fx : Fixes) (d : Doc) : Prop := Spec.ParentsAgree s d ∧ OverlapSide s d ∧ NoCrash s fx d
 
 /-- the variants of the validator the uniform theorems speak about: the variable collector of /repo HEAD
     (fix commit 160f78c). `Fixes.all` satisfies it; the harness checks on every run that the tree under test does -/
@@ -61,13 +71,14 @@ def SpecAll (r : Rule) (s : SchemaD) (fx : Fixes) (d : Doc) : Prop :=
   | .variablesInAllowedPosition => Spec.variablesInAllowedPosition s d
   | .noFragmentCycles => Spec.noFragmentCycles d
   | .valuesOfCorrectType => Spec.valuesOfCorrectType s fx d
+  | .overlappingFieldsCanBeMerged => Spec.overlappingFieldsCanBeMerged s d
   | r => SpecOf r s d
 
 theorem rule_iff_all (s : SchemaD) (fx : Fixes) (hfx : HeadVars fx) (d : Doc) (hne : NamesNonEmpty d)
-    (hnd : (Spec.fragNames d).Nodup) (r : Rule) (hr : r ∈ ProvedAll) :
+    (hov : OverlapHyps s fx d) (hnd : (Spec.fragNames d).Nodup) (r : Rule) (hr : r ∈ ProvedAll) :
     Silent s fx r d ↔ SpecAll r s fx d := by
   simp only [ProvedAll, ProvedPermDefs, List.mem_append] at hr
-  rcases hr with ((((hr | hr) | hr) | hr) | hr) | hr
+  rcases hr with (((((hr | hr) | hr) | hr) | hr) | hr) | hr
   · have := rule_iff s fx d r hr
     simp only [Proved, List.mem_cons, List.not_mem_nil, or_false] at hr
     rcases hr with rfl | rfl | rfl | rfl | rfl | rfl | rfl | rfl | rfl | rfl <;> exact this
@@ -96,6 +107,9 @@ theorem rule_iff_all (s : SchemaD) (fx : Fixes) (hfx : HeadVars fx) (d : Doc) (h
   · simp only [ProvedValues, List.mem_cons, List.not_mem_nil, or_false] at hr
     subst hr
     exact rule_values_of_correct_type_iff s fx d
+  · simp only [ProvedOverlap, List.mem_cons, List.not_mem_nil, or_false] at hr
+    subst hr
+    exact rule_overlapping_fields_can_be_merged_iff_partial s fx hfx.2.2.2 d hov.1 hov.2.1 hov.2.2
 
 /-- the rules of `ProvedPermDefs` need no hypothesis on `fx` -/
 theorem rule_iff_permdefs (s : SchemaD) (fx : Fixes) (d : Doc) (r : Rule) (hr : r ∈ ProvedPermDefs) :
@@ -116,49 +130,70 @@ theorem rule_iff_permdefs (s : SchemaD) (fx : Fixes) (d : Doc) (r : Rule) (hr : 
     · exact rule_known_directives_iff s fx d
     · exact rule_no_unused_fragments_iff_implemented s fx d
 
-/-- **verdict_iff** for the conjunction of the 25 rules proved -/
-theorem verdict_iff_all_partial (s : SchemaD) (fx : Fixes) (hfx : HeadVars fx) (d : Doc) (hne : NamesNonEmpty d) :
+/-- **verdict_iff** for the conjunction of the 26 rules -/
+theorem verdict_iff_all_partial (s : SchemaD) (fx : Fixes) (hfx : HeadVars fx) (d : Doc) (hne : NamesNonEmpty d)
+    (hov : OverlapHyps s fx d) :
     (∀ r ∈ ProvedAll, Silent s fx r d) ↔ (∀ r ∈ ProvedAll, SpecAll r s fx d) := by
   have huf : Rule.uniqueFragmentNames ∈ ProvedAll := by decide
   constructor
   · intro h
     have hnd : (Spec.fragNames d).Nodup := (rule_unique_fragment_names_iff s fx d).mp (h _ huf)
-    exact fun r hr => (rule_iff_all s fx hfx d hne hnd r hr).mp (h r hr)
+    exact fun r hr => (rule_iff_all s fx hfx d hne hov hnd r hr).mp (h r hr)
   · intro h
     have hnd : (Spec.fragNames d).Nodup := h _ huf
-    exact fun r hr => (rule_iff_all s fx hfx d hne hnd r hr).mpr (h r hr)
+    exact fun r hr => (rule_iff_all s fx hfx d hne hov hnd r hr).mpr (h r hr)
 
-/-- **valid by the specification clauses ⇒ accepted, for ALL 26 rules**: if the clause of each of the 25 proved rules
-    holds and no selection set contains two conflicting fields (`Spec.overlappingFieldsCanBeMerged`, val2's half of
-    5.3.2), then NO rule visitor reports. (The converse holds for the 25 rules of `ProvedAll`:
-    `verdict_iff_all_partial`; for `OverlappingFieldsCanBeMergedChecker` it is open: `OverlapFullStatement`.) -/
+/-- every rule of the chain is in `ProvedAll` -/
+theorem provedAll_complete : ∀ r ∈ Rule.all, r ∈ ProvedAll := by decide
+theorem provedAll_sub : ∀ r ∈ ProvedAll, r ∈ Rule.all := by decide
+
+/-- **valid by the specification clauses ⇒ accepted, for ALL 26 rules, without side conditions**: if the clause of
+    every rule holds, NO rule visitor reports (only `HeadVars` = the code of /repo HEAD, and non-empty fragment names) -/
 theorem spec_valid_accepted_all (s : SchemaD) (fx : Fixes) (hfx : HeadVars fx) (d : Doc) (hne : NamesNonEmpty d)
-    (h : ∀ r ∈ ProvedAll, SpecAll r s fx d) (ho : Spec.overlappingFieldsCanBeMerged s d) :
-    ∀ r ∈ Rule.all, Silent s fx r d := by
-  have hcover : ∀ r ∈ Rule.all, r ∈ ProvedAll ∨ r = .overlappingFieldsCanBeMerged := by decide
+    (h : ∀ r ∈ Rule.all, SpecAll r s fx d) : ∀ r ∈ Rule.all, Silent s fx r d := by
+  have hnd : (Spec.fragNames d).Nodup := h .uniqueFragmentNames (by decide)
   intro r hr
-  rcases hcover r hr with hp | rfl
-  · exact (verdict_iff_all_partial s fx hfx d hne).mpr h r hp
-  · exact rule_overlapping_fields_can_be_merged_no_false_alarm_partial s fx hfx.2.2.2 d ho
+  by_cases ho : r = .overlappingFieldsCanBeMerged
+  · subst ho
+    exact rule_overlapping_fields_can_be_merged_no_false_alarm_partial s fx hfx.2.2.2 d (h _ hr)
+  · -- the other 25 rules need no overlap side condition
+    have hp := provedAll_complete r hr
+    simp only [ProvedAll, ProvedPermDefs, List.mem_append] at hp
+    rcases hp with (((((hp | hp) | hp) | hp) | hp) | hp) | hp
+    · exact (rule_iff_permdefs s fx d r (by simp only [ProvedPermDefs, List.mem_append]; exact Or.inl hp)).mpr (h r hr)
+    · exact (rule_iff_permdefs s fx d r (by simp only [ProvedPermDefs, List.mem_append]; exact Or.inr hp)).mpr (h r hr)
+    · simp only [ProvedOrder, List.mem_cons, List.not_mem_nil, or_false] at hp; subst hp
+      exact (rule_possible_fragment_spreads_iff s fx d).mpr (h _ hr)
+    · simp only [ProvedVars, List.mem_cons, List.not_mem_nil, or_false] at hp
+      rcases hp with rfl | rfl | rfl | rfl
+      · exact (rule_unique_variable_names_iff s fx d).mpr (h _ hr)
+      · exact (rule_no_undefined_variables_iff s fx hfx.2.1 d).mpr (h _ hr)
+      · exact (rule_no_unused_variables_iff s fx hfx.2.1 d).mpr (h _ hr)
+      · exact (rule_variables_in_allowed_position_iff s fx hfx.1 hfx.2.1 d).mpr (h _ hr)
+    · simp only [ProvedCyc, List.mem_cons, List.not_mem_nil, or_false] at hp; subst hp
+      exact (rule_no_fragment_cycles_iff s fx hfx.2.2.1 d hnd hne).mpr (h _ hr)
+    · simp only [ProvedValues, List.mem_cons, List.not_mem_nil, or_false] at hp; subst hp
+      exact (rule_values_of_correct_type_iff s fx d).mpr (h _ hr)
+    · simp only [ProvedOverlap, List.mem_cons, List.not_mem_nil, or_false] at hp
+      exact absurd hp ho
 
-/-- **accepted ⇒ the 25 proved clauses hold** -/
-theorem accepted_spec_valid_partial (s : SchemaD) (fx : Fixes) (hfx : HeadVars fx) (d : Doc) (hne : NamesNonEmpty d)
-    (h : ∀ r ∈ Rule.all, Silent s fx r d) : ∀ r ∈ ProvedAll, SpecAll r s fx d := by
-  have hsub : ∀ r ∈ ProvedAll, r ∈ Rule.all := by decide
-  exact (verdict_iff_all_partial s fx hfx d hne).mp (fun r hr => h r (hsub r hr))
+/-- **accepted ⇒ valid by all 26 clauses**, under the side conditions of the overlap rule -/
+theorem accepted_spec_valid_all_partial (s : SchemaD) (fx : Fixes) (hfx : HeadVars fx) (d : Doc) (hne : NamesNonEmpty d)
+    (hov : OverlapHyps s fx d) (h : ∀ r ∈ Rule.all, Silent s fx r d) : ∀ r ∈ Rule.all, SpecAll r s fx d := fun r hr =>
+  (verdict_iff_all_partial s fx hfx d hne hov).mp (fun r' hr' => h r' (provedAll_sub r' hr')) r (provedAll_complete r hr)
 
-/-- **attribution** over the 25 rules proved (on the rules run alone; see `attribution_partial`) -/
+/-- **attribution** over the 26 rules (on the rules run alone; see `attribution_partial`) -/
 theorem attribution_all_partial (s : SchemaD) (fx : Fixes) (hfx : HeadVars fx) (d : Doc) (hne : NamesNonEmpty d)
-    (hnd : (Spec.fragNames d).Nodup) (r : Rule) (hr : r ∈ ProvedAll)
+    (hov : OverlapHyps s fx d) (hnd : (Spec.fragNames d).Nodup) (r : Rule) (hr : r ∈ ProvedAll)
     (hbad : ¬ SpecAll r s fx d) (hothers : ∀ r' ∈ ProvedAll, r' ≠ r → SpecAll r' s fx d) :
     0 < E (alone s fx r d) ∧ ∀ r' ∈ ProvedAll, r' ≠ r → E (alone s fx r' d) = 0 := by
-  refine ⟨Nat.pos_of_ne_zero fun h0 => hbad ((rule_iff_all s fx hfx d hne hnd r hr).mp h0), fun r' hr' hdiff => ?_⟩
-  exact (rule_iff_all s fx hfx d hne hnd r' hr').mpr (hothers r' hr' hdiff)
+  refine ⟨Nat.pos_of_ne_zero fun h0 => hbad ((rule_iff_all s fx hfx d hne hov hnd r hr).mp h0), fun r' hr' hdiff => ?_⟩
+  exact (rule_iff_all s fx hfx d hne hov hnd r' hr').mpr (hothers r' hr' hdiff)
 
 theorem typedNodes_perm (s : SchemaD) {d d' : Doc} (h : d.defs.Perm d'.defs) (p : Node × View) :
     p ∈ typedNodes s d ↔ p ∈ typedNodes s d' := (h.flatMap_right _).mem_iff
 
-/-- **perm_definitions** for 17 of the 25 rules proved (`PossibleFragmentSpreads` reads the type condition of the LAST
+/-- **perm_definitions** for 17 of the 26 rules (`PossibleFragmentSpreads` reads the type condition of the LAST
     definition of a fragment name, so with duplicate fragment names its predicate depends on the order) -/
 theorem perm_definitions_all_partial (s : SchemaD) (fx : Fixes) {d d' : Doc} (h : d.defs.Perm d'.defs) (r : Rule)
     (hr : r ∈ ProvedPermDefs) : Silent s fx r d ↔ Silent s fx r d' := by
@@ -211,5 +246,7 @@ theorem perm_definitions_all_partial (s : SchemaD) (fx : Fixes) {d d' : Doc} (h 
 
 /-- every rule of the chain is either proved or listed in `Spec.Unproved` -/
 theorem proved_all_or_listed : ∀ r ∈ Rule.all, r ∈ ProvedAll ∨ r.name ∈ Spec.Unproved := by decide
+
+theorem unproved_empty : Spec.Unproved = [] := rfl
 
 end PyGql.Props.C06
